@@ -634,6 +634,33 @@ class _NXP:
             out.append(x._pyvc_getitem(self._interp(), idx))
         return tuple(out)
 
+    def broadcast_shapes(self, *shapes):
+        """numpy.broadcast_shapes: right-aligned; extents agree or one of them is 1"""
+        self._note("broadcast_shapes")
+        interp = self._interp()
+        shapes = [tuple(s) if not isinstance(s, (int, SInt)) else (s,) for s in shapes]
+        nd = max((len(s) for s in shapes), default=0)
+        out = []
+        for i in range(nd):
+            ext = None
+            for sh in shapes:
+                j = i - (nd - len(sh))
+                if j < 0:
+                    continue
+                e = sh[j]
+                if ext is None:
+                    ext = e
+                elif interp.truth(ext == e):
+                    continue
+                elif interp.truth(ext == 1):
+                    ext = e
+                elif interp.truth(e == 1):
+                    continue
+                else:
+                    raise PyExc(ValueError, ("shape mismatch: objects cannot be broadcast to a single shape",))
+            out.append(ext)
+        return tuple(out)
+
     # generated values: origin(loc) = ("<value>", (term,)) — the element's value as a term of its local index
     def arange(self, start, stop=None, step=1, dtype=None, **k):
         """numpy.arange for integer arguments: n = max(0, ceil((stop - start) / step)) elements start + l*step"""
